@@ -55,6 +55,9 @@ def abstract(sb, storage_dir):
         r = {'type': m['file_type'] if m else None, 'size': m.get('size') if m else None,
              'digest': digest_hex(cd[e])[1] if e in cd else None, 'algo': digest_hex(cd[e])[0] if e in cd else None,
              'method': rm.get(e), 'tob': tb.get(e)}
+        if r['type'] == 'Directory':
+            # the "digest" and size of a directory record depend on directory mtimes/inode sizes, not on the command's meaning
+            r = {'type': 'Directory'}
         if p in recs:
             dup[p] = dup.get(p, 1) + 1
         recs[p] = r
@@ -70,7 +73,7 @@ def abstract(sb, storage_dir):
         elif k['kind'] == 'file' and os.path.basename(rel) in ('.gitignore', '.xvcignore'):
             # xvc writes a time-stamped banner line before the lines it appends
             lines = [l for l in (k['bytes'] or b'').decode('utf-8', 'replace').splitlines() if not l.startswith('### Following ')]
-            ws[rel] = {'kind': 'file', 'lines': lines}
+            ws[rel] = {'kind': 'file', 'lines': sorted(lines)}    # xvc appends `/name` lines in hash-map order
         elif k['kind'] == 'file':
             ws[rel] = {'kind': 'file', 'sha': sha(k['bytes']), 'writable': k['writable'],
                        'hardlink_of': inode_to_obj.get(k['ino']) if k['nlink'] > 1 else None}
@@ -351,8 +354,8 @@ def touched(pre, post, family):
             t.add(p)
     # cache / storage objects are attributed to the paths recording their digest
     def owners(recs, addr):
-        return {p for p, r in recs.items() if r['digest'] and r['type'] == 'File'
-                and cache_rel(r['algo'], r['digest'], os.path.basename(p).rsplit('.', 1)[1] if '.' in os.path.basename(p) else '') == addr}
+        return {p for p, r in recs.items() if r.get('digest') and r['type'] == 'File'
+                and r.get('algo') and cache_rel(r['algo'], r['digest'], os.path.basename(p).rsplit('.', 1)[1] if '.' in os.path.basename(p) else '') == addr}
     for k in set(pre['cache']) | set(post['cache']):
         if pre['cache'].get(k) != post['cache'].get(k):
             t |= owners(post['records'], k) | owners(pre['records'], k)
